@@ -176,7 +176,7 @@ func probeSystem(is *issues) (rd, wr []pageLine, info map[string]interface{}) {
 	var nBoth uint64
 	classBase := []uint32{0, 0, 0xE00000, 0xF50000, 0}
 	for a := uint32(0); a < N; a++ {
-		if !ok[a] || cls[a] == clsHWIO || cls[a] == clsNone {
+		if !ok[a] || cls[a] == clsNone {
 			continue
 		}
 		p, err := lorom.BusAddressToPak(a)
